@@ -131,6 +131,8 @@ class LuaLib:
         self.free = []                  # Fn in declaration order (global scope)
         self.ns = None                  # (namespace name, [Fn])
         self.nfn = 0
+        self.class_attrs = {}           # class name -> extra keys of its YAML entry (format / options)
+        self.lib_options = {}           # extra library-level options (e.g. LUA_metadata_template)
 
     def new_uid(self):
         self.nfn += 1
@@ -141,11 +143,14 @@ class LuaLib:
         # classes first: a class-pointer parameter needs its class declared before it is used
         decls = []
         for cname, fns in self.classes:
-            decls.append({"decl": "class " + cname, "declarations": [{"decl": f.decl()} for f in fns]})
+            e = {"decl": "class " + cname, "declarations": [{"decl": f.decl()} for f in fns]}
+            e.update(self.class_attrs.get(cname, {}))
+            decls.append(e)
         decls += [{"decl": f.decl()} for f in self.free]
         if self.ns:
             decls.append({"decl": "namespace " + self.ns[0], "declarations": [{"decl": f.decl()} for f in self.ns[1]]})
         opts = {"wrap_fortran": False, "wrap_c": False, "wrap_python": False, "wrap_lua": True, "debug": True}
+        opts.update(self.lib_options)
         return libgen.Lib(self.name, "c++", decls, opts)
 
     def yaml(self):
@@ -300,7 +305,7 @@ def _gen_overloads(r, lib, name, role, cls, novl, allow_defaults=True, rtypes=No
 
 def gen_lualib(r, name, nfree=None, nclasses=None, with_ns=None, rich=False):
     lib = LuaLib(name)
-    nclasses = r.choice([1, 1, 2, 2]) if nclasses is None else nclasses
+    nclasses = r.choice([1, 2, 2, 3]) if nclasses is None else nclasses
     allcls = [("Cls%d" % (ci + 1), ci + 1) for ci in range(nclasses)]
     nfree = r.randrange(3, 7) if nfree is None else nfree
     names = ["Alpha", "betaFunc", "gamma_x", "DeltaTwo", "eps", "Zeta9", "etaName", "Theta"]
@@ -333,8 +338,16 @@ def gen_lualib(r, name, nfree=None, nclasses=None, with_ns=None, rich=False):
                     g.fns.append(f)
     lib.free = order
     lib.groups.extend(free_groups)
+    # the metatable name is the user's to choose: library-wide template, per class template, per class format field
+    if r.random() < 0.3:
+        lib.lib_options["LUA_metadata_template"] = "%s_{cxx_class}_mt" % name
     for ci in range(nclasses):
         cname = "Cls%d" % (ci + 1)
+        how = r.choice(["default", "default", "format", "template"])
+        if how == "format":
+            lib.class_attrs[cname] = {"format": {"LUA_metadata": "meta.of.%s.%d" % (cname, r.randrange(9))}}
+        elif how == "template":
+            lib.class_attrs[cname] = {"options": {"LUA_metadata_template": "{cxx_class}::lua%d" % r.randrange(9)}}
         fns = []
         while True:
             save = lib.nfn
@@ -344,6 +357,10 @@ def gen_lualib(r, name, nfree=None, nclasses=None, with_ns=None, rich=False):
             lib.nfn = save
         fns.extend(ctors)
         lib.groups.append(Group(cname, "ctor", cname, ctors))
+        if ci > 0 and ci == nclasses - 1 and r.random() < 0.5:
+            # a class that registers no method at all (constructors only): its objects are still passed around
+            lib.classes.append((cname, fns))
+            continue
         dt = Fn(lib.new_uid(), "dtor", [], "void", role="dtor", cls=cname)
         fns.append(dt)
         lib.groups.append(Group("__gc", "dtor", cname, [dt]))
@@ -459,6 +476,14 @@ def fixed_lualib(name="luafix"):
     lib.groups.append(Group("__gc", "dtor", "Bar", bdt))
     lib.groups.append(Group("take", "method", "Bar", take))
     lib.groups.append(Group("eat", "method", "Foo", same_cls))
+    oct_ = mk("ctor", "ctor", "Only", [[], [P("int")]], ["Only", "Only"])
+    lib.classes.append(("Only", oct_))
+    lib.groups.append(Group("Only", "ctor", "Only", oct_))
+    lib.class_attrs["Only"] = {"format": {"LUA_metadata": "user.chosen.Only"}}
+    lib.class_attrs["Bar"] = {"options": {"LUA_metadata_template": "{cxx_class}::luameta"}}
+    use = mko("use", "free", None, [[OP("Only", 3)], [OP("Bar", 2), OP("Only", 3), P("int", "0")]], ["int", "void"])
+    lib.free = lib.free + use
+    lib.groups.append(Group("use", "free", None, use))
     give = mko("give", "free", None, [[OP("Bar", 2)], [OP("Foo", 1), OP("Bar", 2), P("double", "0.0")]], ["void", "double"])
     lib.free = lib.free + give
     lib.groups.append(Group("give", "free", None, give))
